@@ -419,8 +419,11 @@ int main(int argc, char *argv[])
 
     fprintf(asm_context.list, "data sections:");
 
-    for (i = asm_context.memory.low_address; i <= asm_context.memory.high_address; i++)
+    // 64 bit counter: high_address can be 0xffffffff and a 32 bit one would wrap.
+    for (uint64_t a = asm_context.memory.low_address; a <= asm_context.memory.high_address; a++)
     {
+      i = (uint32_t)a;
+
       if (asm_context.read_debug(i) == -2)
       {
         if (ch == 0)
